@@ -462,6 +462,7 @@ Record case := mkS {
   z_data : list bytes;            (* channel data the client writes *)
   z_reply : list bytes;           (* channel data the backend writes, then it closes the channel *)
   z_texty : bool;
+  z_halfclose : bool;             (* the client ends its direction (EOF) after its data; the backend writes its reply only then *)
   o_ok : bool;                    (* observed: the client was authenticated *)
   o_bauth : list (bytes * bytes); (* observed: (user, password) attempts at the backend *)
   o_bconns : N;
@@ -508,16 +509,24 @@ Definition req_types (l : list smsg) : list bytes :=
 
 Definition client_msgs (c : case) : list smsg := z_reqs c ++ map MData (z_data c).
 
+(* the session's two directions as a schedule for the duplex model *)
+Definition sched (c : case) : list dev :=
+  map DC (z_data c) ++ (if z_halfclose c then [DCEof] else []) ++ map DB (z_reply c) ++ [DBEof].
+
 Definition agrees (c : case) : bool :=
   let '(tried, ok) := auth_run (accepts c) (attempts c) in
   Bool.eqb ok (o_ok c) && eqb_list eqb_cred tried (o_bauth c) && (o_bconns c =? N.of_nat (length tried))%N &&
   eqb_list eqb_cred tried (o_evpw c) && o_attr c &&
   if ok then
     let relayed := ssh_relay (client_msgs c) [] in
-    eqb_list eqb_smsg (reqs_of relayed) (o_breqs c) && eqb_bytes (data_of relayed) (o_bdata c) &&
-    eqb_bytes (o_cdata c) (relay_until_close (z_reply c) []) &&
+    (* the relay stops at the client's EOF: requests without reply that the client sent just before
+       it may or may not have been forwarded by then (timing) *)
+    (if z_halfclose c then prefix_list eqb_smsg (o_breqs c) (reqs_of relayed)
+     else eqb_list eqb_smsg (reqs_of relayed) (o_breqs c)) && eqb_bytes (data_of relayed) (o_bdata c) &&
+    eqb_bytes (o_cdata c) (d_down (ssh_duplex (sched c))) && eqb_bytes (o_bdata c) (d_up (ssh_duplex (sched c))) &&
     eqb_list Bool.eqb (o_replies c) (want_replies (z_reqs c)) &&
-    eqb_list eqb_bytes (req_types (z_reqs c)) (o_evreqs c) && (o_evchan c =? 1)%N && (o_evsess c =? 1)%N &&
+    (if z_halfclose c then prefix_list eqb_bytes (o_evreqs c) (req_types (z_reqs c))
+     else eqb_list eqb_bytes (req_types (z_reqs c)) (o_evreqs c)) && (o_evchan c =? 1)%N && (o_evsess c =? 1)%N &&
     (if z_texty c && eqb_bytes (o_cdata c) (concat (z_reply c)) then eqb_bytes (o_rec c) (sanitize (concat (z_reply c))) else true)
   else
     match o_breqs c, o_bdata c, o_cdata c, o_evreqs c with
@@ -535,6 +544,7 @@ Definition SIG_EVENT := 5%N.
 Definition SIG_CONNS := 6%N.
 Definition SIG_STATUS := 7%N.
 Definition SIG_REPLY_RACE := 9%N.     (* the client was never told the outcome of a request the backend answered right before closing the channel (repaired: e6ccfa1) *)
+Definition SIG_HALFCLOSE := 10%N.     (* the client ended its direction, what the backend wrote afterwards did not reach it *)
 Definition SIG_TRUNCATED := 8%N.      (* the client received only a proper prefix of the backend's channel data / request replies (repaired: fc51d79) *)
 
 (* the property on the observation: the backend sees the presented credentials, attempt
@@ -551,10 +561,11 @@ Definition case_sigs (c : case) : list N :=
   ++ (if (o_bconns c =? N.of_nat n)%N then [] else [SIG_CONNS])
   ++ (if eqb_list eqb_cred (o_bauth c) (o_evpw c) && o_attr c then [] else [SIG_EVENT])
   ++ (if o_ok c then
-        (if eqb_list eqb_smsg (z_reqs c) (o_breqs c) then [] else [SIG_REQS])
+        (if eqb_list eqb_smsg (z_reqs c) (o_breqs c) then []
+         else if z_halfclose c && prefix_list eqb_smsg (o_breqs c) (z_reqs c) then [SIG_HALFCLOSE] else [SIG_REQS])
         ++ (if eqb_bytes (concat (z_data c)) (o_bdata c) then [] else [SIG_UP])
         ++ (if eqb_bytes (o_cdata c) (concat (z_reply c)) then []
-            else if is_prefix (o_cdata c) (concat (z_reply c)) then [SIG_TRUNCATED] else [SIG_DOWN])
+            else if is_prefix (o_cdata c) (concat (z_reply c)) then [if z_halfclose c then SIG_HALFCLOSE else SIG_TRUNCATED] else [SIG_DOWN])
         ++ (if eqb_list Bool.eqb (want_replies (z_reqs c)) (o_replies c) then []
             else if prefix_list Bool.eqb (o_replies c) (want_replies (z_reqs c)) then [SIG_REPLY_RACE] else [SIG_STATUS])
         ++ (if eqb_list eqb_bytes (req_types (o_breqs c)) (o_evreqs c) && (o_evchan c =? 1)%N && (o_evsess c =? 1)%N
@@ -575,3 +586,80 @@ Definition tags (cs : list case) : list (N * N) :=
      + (if (16384 <? N.of_nat (length (concat (z_data c))))%N || (16384 <? N.of_nat (length (concat (z_reply c))))%N then 16 else 0))%N) cs.
 
 End SshCheck.
+
+(* ================================================================== *)
+Module DuplexCheck.
+
+(* copy over a stream, both directions with half-close, scripted at the granularity of
+   writes and ends of direction.  Large chunks are given as (byte, length) and observations
+   as (length, digest). *)
+Inductive ev := XC (b : N) (n : N) | XCLit (d : bytes) | XCEof | XB (b : N) (n : N) | XBLit (d : bytes) | XBEof.
+
+Definition dev_of (e : ev) : dev :=
+  match e with
+  | XC b n => DC (repeat b (N.to_nat n))
+  | XCLit d => DC d
+  | XCEof => DCEof
+  | XB b n => DB (repeat b (N.to_nat n))
+  | XBLit d => DB d
+  | XBEof => DBEof
+  end.
+
+Record case := mkX {
+  x_id : N;
+  x_sched : list ev;
+  o_uplen : N; o_uph : hash;        (* observed: what the backend received *)
+  o_downlen : N; o_downh : hash;    (* observed: what the client received *)
+  o_beof : bool;                    (* observed: the backend saw the end of the client's direction *)
+  o_ceof : bool;                    (* observed: the client saw the end of the backend's direction *)
+  o_events : N; o_dials : N
+}.
+
+Definition same (d : bytes) (n : N) (h : hash) : bool := (N.of_nat (length d) =? n)%N && eqh (fnv d) h.
+
+(* the client still writes after the relay has stopped (the backend ended its direction
+   first): the proxy closes a socket with unread input, the kernel answers with a reset, and
+   a reset also discards what the client had not yet read - how much is timing *)
+Fixpoint after_beof (l : list dev) : list dev :=
+  match l with [] => [] | DBEof :: r => r | _ :: r => after_beof r end.
+Definition writes_into_closed (l : list dev) : bool :=
+  match ups (after_beof l) with [] => false | _ => true end.
+
+Definition agrees (c : case) : bool :=
+  let l := map dev_of (x_sched c) in
+  let s := copy_duplex l in
+  same (d_up s) (o_uplen c) (o_uph c) &&
+  (if writes_into_closed l then (o_downlen c <=? N.of_nat (length (d_down s)))%N
+   else same (d_down s) (o_downlen c) (o_downh c) && Bool.eqb (d_ceof s) (o_ceof c)) &&
+  Bool.eqb (d_beof s) (o_beof c) && (o_events c =? 1)%N && (o_dials c =? 1)%N.
+
+Definition mismatches (cs : list case) : list N := map x_id (filter (fun c => negb (agrees c)) cs).
+
+Definition SIG_DOWN_LOST := 1%N.    (* what the backend wrote did not all reach the client (the client's direction had ended / was slow) *)
+Definition SIG_UP_LOST := 2%N.      (* what the client wrote did not all reach the backend (the backend's direction had ended) *)
+Definition SIG_CHANGED := 3%N.
+Definition SIG_EVENT := 4%N.
+Definition SIG_EOF_NOT_FORWARDED := 5%N.   (* the client ended its direction, the backend never saw it *)
+
+(* the property: each side receives everything the other wrote before ending its own
+   direction, whatever the order in which the directions end *)
+Definition case_sigs (c : case) : list N :=
+  let l := map dev_of (x_sched c) in
+  (if same (downs l) (o_downlen c) (o_downh c) then []
+   else if (o_downlen c <? N.of_nat (length (downs l)))%N
+        then (if writes_into_closed l then [] else [SIG_DOWN_LOST])     (* else: a consequence of SIG_UP_LOST, reported there *)
+        else [SIG_CHANGED])
+  ++ (if same (ups l) (o_uplen c) (o_uph c) then []
+      else if (o_uplen c <? N.of_nat (length (ups l)))%N then [SIG_UP_LOST] else [SIG_CHANGED])
+  ++ (if existsb (fun e => match e with XCEof => true | _ => false end) (x_sched c) && negb (o_beof c) then [SIG_EOF_NOT_FORWARDED] else [])
+  ++ (if (o_events c =? 1)%N && (o_dials c =? 1)%N then [] else [SIG_EVENT]).
+
+Definition violations (cs : list case) : list (N * N) :=
+  nodup_pairs (flat_map (fun c => map (fun s => (x_id c, s)) (case_sigs c)) cs).
+
+(* 1 = the client ends its direction first, 2 = the backend does, 4 = only one side ends *)
+Fixpoint first_end (l : list ev) : N :=
+  match l with [] => 4 | XCEof :: _ => 1 | XBEof :: _ => 2 | _ :: r => first_end r end.
+Definition tags (cs : list case) : list (N * N) := map (fun c => (x_id c, first_end (x_sched c))) cs.
+
+End DuplexCheck.
